@@ -26,6 +26,9 @@ Soundness decisions (the weaker reading wherever the statement leaves room):
   mode as "two bytes = two columns"; half-width katakana, 3-byte EUC, lone lead bytes are the
   caller's problem).  For other byte strings only the mode-independent facts are asserted
   (no exception, width == byte count and additive, calc_text_pos stays in range and <= target);
+* encoding selection histories (enchist): the expected mode of a name comes from the manual's list, not from
+  urwid; a raw set_byte_encoding leaves codec and DEC translation unasserted until the next set_encoding;
+  set_temporary_encoding (restores by name) is entered only from states a name alone reproduces;
 * apply_target_encoding: user text never contains raw SO/SI; the charset runs are compared after
   expansion to one entry per byte (the statement does not fix how runs are merged).
 """
@@ -58,7 +61,14 @@ RULE = (
     "trip), is_wide_char, calc_trim_text, trim_text_attr_cs, and str<->bytes agreement; long: Hypothesis "
     "strings of <=24 units with sampled probes; dec: apply_target_encoding on every DEC special "
     "character alone, in every pair with 8 neighbours, and every string of <=4 units over a 7-unit "
-    "alphabet, in utf-8, wide and narrow. Non-trivial: the text contains a multi-byte, wide, zero-width "
+    "alphabet, in utf-8, wide and narrow. enchist: histories of encoding-selection calls - set_encoding(name) for "
+    "every name of docs/manual/encodings.rst (UTF-8, the ten double-byte names and their unhyphenated / alias forms, "
+    "single-byte names, the C locale's ASCII name, an unknown name) in lower / UPPER / Title / eucJP spelling, "
+    "str_util.set_byte_encoding(mode), entering / leaving util.set_temporary_encoding(name): every call alone, after each "
+    "of 10 kinds of previous selection and followed by that selection again, every history of <=3 (thorough <=4) calls "
+    "over 16 representative calls, Hypothesis histories of <=10 calls; after every call all clauses on a bytes probe "
+    "(pairs that are 1 / 2 / 2x1 columns in utf8 / wide / narrow), str<->encoded-bytes agreement and "
+    "apply_target_encoding under the mode and codec the name stands for. Non-trivial: the text contains a multi-byte, wide, zero-width "
     "or DEC character (codepoint: cp >= 0x80). total: 4-byte UTF-8 forms above U+10FFFF (boundary values, 9 "
     "contexts): only 'the functions return, in range' is asserted."
 )
@@ -69,6 +79,12 @@ ASSUMPTIONS = [
     "wide mode is asserted strictly only for valid text whose characters have encoded length == width",
     "calc_trim_text is called with 0 <= start_col < end_col <= width of the range, or (0, 0)",
     "user text passed to apply_target_encoding contains no raw SO/SI control characters",
+    "encoding names: letter case is not significant (manual: set_encoding('UTF-8'); the locale module reports upper "
+    "case); the name -> mode table is transcribed from docs/manual/encodings.rst, other separators (euc_jp) are not generated",
+    "after str_util.set_byte_encoding only the byte arithmetic of that mode is asserted (codec / DEC translation "
+    "unstated); set_temporary_encoding is entered only from a state selected by set_encoding with a name Python has a "
+    "codec for (it restores by name); for names without a Python codec only ASCII and DEC characters are passed to "
+    "apply_target_encoding",
 ]
 
 warnings.filterwarnings("ignore", category=UnicodeWarning)  # calc_width announces invalid UTF-8
@@ -178,7 +194,11 @@ def _set_enc(enc):
     if util.get_encoding() != enc or str_util.get_byte_encoding() != mode:
         widths.use_encoding(enc)
         if util.get_encoding() != enc or str_util.get_byte_encoding() != mode:
-            raise AssertionError(f"could not select {enc}")
+            raise Violation(
+                "select-encoding",
+                f"set_encoding({enc!r}) left get_encoding() = {util.get_encoding()!r}, mode "
+                f"{str_util.get_byte_encoding()!r}; expected {enc!r} / {mode!r}",
+            )
     return mode
 
 
@@ -671,6 +691,11 @@ def check_dec(case):
     if escape.SO in s or escape.SI in s or any(0xD800 <= ord(c) <= 0xDFFF for c in s):
         raise Discard()
     mode = _set_enc(enc)
+    _dec_oracle(s, mode, enc, f"enc={enc}")
+
+
+def _dec_oracle(s, mode, codec, label):
+    """apply_target_encoding(s) when the active encoding has byte mode `mode` and Python codec `codec`"""
     exp_bytes = bytearray()
     exp_cs = []
     for ch in s:
@@ -679,12 +704,12 @@ def check_dec(case):
             e = ALT_CHARS[k].encode("ascii")
             tag = escape.DEC_TAG
         else:
-            e = ch.encode(enc, "replace")
+            e = ch.encode(codec, "replace")
             tag = None
         exp_bytes += e
         exp_cs += [tag] * len(e)
     out, cs = util.apply_target_encoding(s)
-    ctxs = f"enc={enc} apply_target_encoding({s!r}) = ({out!r}, {cs!r})"
+    ctxs = f"{label} apply_target_encoding({s!r}) = ({out!r}, {cs!r})"
     if not isinstance(out, bytes):
         raise Violation("dec-type", f"{ctxs}: encoded text is not bytes")
     total = sum(n for _, n in cs)
@@ -698,7 +723,7 @@ def check_dec(case):
     out2, cs2 = util.apply_target_encoding(bytes(out))
     if mode == "utf8" or not any(c in DEC_CHARS for c in s):
         if out2 != out or rle_expand(cs2) != [None] * len(out):
-            raise Violation("dec-bytes-passthrough", f"enc={enc} apply_target_encoding({out!r}) = ({out2!r}, {cs2!r})")
+            raise Violation("dec-bytes-passthrough", f"{label} apply_target_encoding({out!r}) = ({out2!r}, {cs2!r})")
 
 
 def _dec_nt(case):
@@ -783,8 +808,198 @@ def switch_cases(max_units):
             yield {"hex": b"".join(t).hex()}
 
 
+# ---------------------------------------------------------------------------------------------
+# sub: enchist  {"ops": [[kind, arg], ...], "hex": probe bytes, "s": probe str, "d": str for output encoding}
+#
+# "the active encoding" is whatever the history of selection calls made it.  The selection API:
+#   ["enc", name]   urwid.set_encoding(name), name spelled as the manual, the locale module or callers spell it
+#   ["mode", m]     urwid.str_util.set_byte_encoding(m)  (the low-level switch set_encoding itself uses)
+#   ["temp", name]  enter util.set_temporary_encoding(name)   ["exit"]  leave the innermost one
+# After every call the width arithmetic of the probes must be the one of the mode the *model* is in.
+#
+# The name -> mode table below is transcribed from docs/manual/encodings.rst ("Supported encodings for
+# pass-through mode": UTF-8; ISO-8859-* and everything else one byte = one column; EUC-JP, EUC-KR, EUC-CN aka
+# CN-GB, EUC-TW, GB2312, GBK, BIG5, UHC two bytes = two columns) plus the unhyphenated forms the C library
+# reports (eucJP, eucKR, ...) and the CNCB alias, which set_encoding has accepted since it replaced
+# set_double_byte_encoding.  It is not imported from urwid.  Spelling: the manual writes the names in upper case
+# (set_encoding("UTF-8")), locale.getpreferredencoding() -- the value urwid passes to set_encoding at import --
+# reports "UTF-8", "EUC-JP", "eucJP", "BIG5", "ANSI_X3.4-1968", ..., callers write lower case: the case of the
+# letters is not significant.  Other separators ("euc_jp") are a different question and are not generated.
+
+ENC_UTF8_NAMES = ("utf-8", "utf8", "utf")
+ENC_DBCS_NAMES = ("euc-jp", "euc-kr", "euc-cn", "euc-tw", "gb2312", "gbk", "big5", "cn-gb", "uhc",
+                  "eucjp", "euckr", "euccn", "euctw", "cncb")
+# single-byte encodings, the C locale's name for ASCII, and a name that is no charset at all
+# (examples/lcd_cf635.py calls set_encoding("narrow"); set_encoding documents the ascii fallback by suppressing LookupError)
+ENC_NARROW_NAMES = ("ascii", "iso8859-1", "latin-1", "iso-8859-15", "cp1252", "koi8-r", "ansi_x3.4-1968", "narrow")
+ENC_MODES = ("utf8", "wide", "narrow")
+
+
+def enc_spellings(name):
+    out = [name, name.upper(), name.title()]
+    if name.startswith("euc"):
+        out.append("euc" + name[3:].upper())  # eucJP / euc-JP: the C library's spelling
+    return list(dict.fromkeys(out))
+
+
+def _enc_model(name):
+    """(byte mode, Python codec or None when Python has no codec of that name) for an encoding name"""
+    import codecs
+
+    low = name.lower()
+    mode = "utf8" if low in ENC_UTF8_NAMES else "wide" if low in ENC_DBCS_NAMES else "narrow"
+    try:
+        codecs.lookup(low)
+    except LookupError:
+        return mode, None
+    return mode, low
+
+
+def _enchist_probe(case, mode, codec, mixed, label):
+    """every C11 clause on the case's probes under the model's state"""
+    text = bytes.fromhex(case["hex"])
+    if mode == "wide":
+        strict = any(valid_wide(text, c) for c in WIDE_CODECS)
+    else:
+        strict = _strictness(text, mode, None)
+    check_text(text, mode, label, strict=strict, trim_all_pairs=False)
+    if mixed:
+        # byte mode chosen behind set_encoding's back: which codec / DEC translation goes with it is not
+        # stated anywhere; only the byte arithmetic (above) is asserted
+        return
+    enc = codec or "ascii"  # set_encoding: "if encoding is valid for conversion from unicode, remember it", else ascii
+    # the str probe and its encoded form (characters the codec encodes with length == width; all in utf-8)
+    ts = ""
+    for ch in case.get("s", ""):
+        try:
+            e = ch.encode(enc)
+        except UnicodeEncodeError:
+            continue
+        if mode == "utf8" or len(e) == widths.char_width(ch):
+            ts += ch
+    if ts:
+        tb = ts.encode(enc)
+        if mode == "wide" and not valid_wide(tb, enc):
+            check_text(ts, mode, label)
+        else:
+            _both(ts, tb, mode, label, do_trim_attr=False)
+    # output encoding; where Python has no codec of that name only ASCII and DEC characters are asserted
+    d = case.get("d", "")
+    if codec is None:
+        d = "".join(ch for ch in d if ord(ch) < 0x80 or ch in DEC_CHARS)
+    if d:
+        _dec_oracle(d, mode, enc, label)
+
+
+def check_enchist(case):
+    ops = case["ops"]
+    # a defined starting point that does not depend on what ran before: two different, ordinary names
+    util.set_encoding("utf-8")
+    util.set_encoding("iso8859-1")
+    mode, codec, mixed = "narrow", "iso8859-1", False
+    stack = []
+    done = []
+    try:
+        for op in [*ops, *([["exit"]] * len(ops))]:
+            kind = op[0]
+            if kind == "enc":
+                util.set_encoding(op[1])
+                mode, codec = _enc_model(op[1])
+                mixed = False
+            elif kind == "mode":
+                str_util.set_byte_encoding(op[1])
+                mode, mixed = op[1], True
+            elif kind == "temp":
+                # the helper restores by *name* (get_encoding()): defined only when the name alone
+                # reproduces the outer state, i.e. it was selected by set_encoding with a name Python knows
+                if mixed or codec is None:
+                    continue
+                cm = util.set_temporary_encoding(op[1])
+                cm.__enter__()
+                stack.append((cm, mode, codec))
+                mode, codec = _enc_model(op[1])
+            elif kind == "exit":
+                if not stack:
+                    continue
+                cm, mode, codec = stack.pop()
+                cm.__exit__(None, None, None)
+                mixed = False
+            else:
+                raise Discard()
+            done.append(op if len(op) > 1 else [kind])
+            label = f"after {done!r} (active: {mode}" + ("" if mixed else f", codec {codec or 'ascii'}") + ")"
+            _enchist_probe(case, mode, codec, mixed, label)
+    finally:
+        while stack:
+            stack.pop()[0].__exit__(None, None, None)
+        str_util.set_byte_encoding("narrow")
+        util.set_encoding("utf-8")
+        util.set_encoding("iso8859-1")
+
+
+ENCHIST_HEX = b"a\xc3\xa9\xc2\xa2Z\xce\xb1".hex()  # utf-8: a e-acute cent Z alpha; wide: 3 pairs; narrow: 8 bytes
+ENCHIST_S = "a亜é中́b"
+ENCHIST_D = "a─é│亜q°"
+
+
+def _enchist_case(ops):
+    return {"ops": [list(o) for o in ops], "hex": ENCHIST_HEX, "s": ENCHIST_S, "d": ENCHIST_D}
+
+
+def enchist_all_ops():
+    """every way to select an encoding: every documented name in every spelling (directly and through the
+    temporary-encoding helper) and every low-level byte mode"""
+    for name in ENC_UTF8_NAMES + ENC_DBCS_NAMES + ENC_NARROW_NAMES:
+        for sp in enc_spellings(name):
+            yield (["enc", sp],)
+            yield (["temp", sp], ["exit"])
+    for m in ENC_MODES:
+        yield (["mode", m],)
+
+
+# one representative per kind of state a selection can leave behind: utf8 / wide / narrow with a Python codec,
+# wide and narrow without one (ascii fallback), utf8 under a name Python does not know, the three raw byte modes
+ENCHIST_PREFIXES = [
+    ["enc", "utf-8"], ["enc", "utf"], ["enc", "euc-jp"], ["enc", "euc-tw"], ["enc", "iso8859-1"], ["enc", "ascii"],
+    ["enc", "narrow"], ["mode", "utf8"], ["mode", "wide"], ["mode", "narrow"],
+]
+# alphabet for the exhaustive three-call histories
+ENCHIST_REPS = [
+    ["enc", "utf-8"], ["enc", "UTF8"], ["enc", "euc-jp"], ["enc", "BIG5"], ["enc", "euc-tw"], ["enc", "cncb"],
+    ["enc", "ascii"], ["enc", "iso8859-1"], ["enc", "narrow"],
+    ["mode", "utf8"], ["mode", "wide"], ["mode", "narrow"],
+    ["temp", "utf-8"], ["temp", "euc-tw"], ["temp", "iso8859-1"], ["exit"],
+]
+
+
+def enchist_cases(max_len):
+    # every selection call after every kind of previous state, then the previous selection repeated
+    for ops in enchist_all_ops():
+        yield _enchist_case(ops)
+        for pre in ENCHIST_PREFIXES:
+            yield _enchist_case([pre, *ops])
+            yield _enchist_case([pre, *ops, pre])
+    # every history of max_len calls over the representatives
+    for n in range(2, max_len + 1):
+        for t in itertools.product(ENCHIST_REPS, repeat=n):
+            yield _enchist_case(t)
+
+
+def _enchist_class(case):
+    out = set()
+    for op in case["ops"]:
+        if op[0] in ("enc", "temp"):
+            mode, codec = _enc_model(op[1])
+            out.add(f"enchist:{op[0]}:{mode}" + ("" if codec else ":no-python-codec")
+                    + ("" if op[1] == op[1].lower() else ":not-lower-case"))
+        else:
+            out.add(f"enchist:{op[0]}")
+    return sorted(out)
+
+
 SUBS = {
     "switch": check_switch,
+    "enchist": check_enchist,
     "codepoint": check_codepoint,
     "cp_enc": check_cp_enc,
     "bytes2": check_bytes2,
@@ -938,6 +1153,21 @@ _dec_long = st.fixed_dictionaries(
 )
 
 
+_enc_op = st.one_of(
+    st.tuples(st.sampled_from(["enc", "enc", "temp"]),
+              st.sampled_from([sp for n in ENC_UTF8_NAMES + ENC_DBCS_NAMES + ENC_NARROW_NAMES for sp in enc_spellings(n)])).map(list),
+    st.tuples(st.just("mode"), st.sampled_from(ENC_MODES)).map(list),
+    st.just(["exit"]),
+)
+_enchist_long = st.fixed_dictionaries({
+    "ops": st.lists(_enc_op, min_size=3, max_size=10),
+    "hex": st.lists(st.sampled_from([b"a", b"Z", b" "] + [bytes([a, b]) for a in (0xC2, 0xC3, 0xCE) for b in (0xA2, 0xA9, 0xB1)]),
+                    min_size=1, max_size=6).map(lambda t: b"".join(t).hex()),
+    "s": st.lists(st.sampled_from(["a", "@", "\xe9", "\xff", "亜", "あ", "中", "가", "\u0301", "\U0001f600"]), max_size=6).map("".join),
+    "d": st.lists(st.one_of(st.sampled_from(list(DEC_CHARS)), st.sampled_from(DEC_NEIGHBOURS)), max_size=6).map("".join),
+})
+
+
 def _codepoints(ctx):
     for cp in range(ctx.shard, 0x110000, ctx.nshards):
         if not 0xD800 <= cp <= 0xDFFF:
@@ -988,6 +1218,13 @@ def shard(ctx):
     section("switch", lambda: ctx.sweep(
         "switch", switch_cases(ctx.scale(3, 4)), nontrivial=lambda c: True, classify=lambda c: ["switch"],
         exhaustive_name="every string of <= 3 (4) ASCII / EUC-pair units measured under 7 alternating encodings"))
+    # 5a'. histories of encoding selection calls (names in every spelling, low-level modes, temporary encodings)
+    section("enchist", lambda: ctx.sweep(
+        "enchist", enchist_cases(ctx.scale(3, 4)), nontrivial=lambda c: True, classify=_enchist_class,
+        exhaustive_name="every encoding name x spelling (direct / temporary) and byte mode after every kind of previous "
+                        "selection, and every history of <= 3 (4) calls over 16 representative calls"))
+    section("enchist-long", lambda: ctx.given("enchist", _enchist_long, ctx.scale(120, 2000), nontrivial=lambda c: True,
+                                              classify=_enchist_class))
     # 5b. totality on 4-byte forms above U+10FFFF (no width oracle there)
     section("total", lambda: ctx.sweep(
         "total", total_cases(), classify=lambda c: ["total:utf8-above-U+10FFFF"],
